@@ -297,6 +297,7 @@ struct R {
     /// what the accepted calls should look like to the reader (oracle bookkeeping)
     accepted: Vec<OChunk>,
     last_tick: Option<i32>,
+    last_keyframe: Option<i32>,
     /// some call of the session panicked: the writer's state is undefined from then on
     panicked: bool,
 }
@@ -325,7 +326,7 @@ fn panic_tag(msg: &str) -> &'static str {
 
 impl R {
     fn new() -> R {
-        R { file: Shared::new(), writer: None, args: None, accepted: vec![], last_tick: None, panicked: false }
+        R { file: Shared::new(), writer: None, args: None, accepted: vec![], last_tick: None, last_keyframe: None, panicked: false }
     }
 
     fn snap(&mut self, tick: i32, items: Vec<(TypeId, u16, Vec<i32>)>, o: &mut Oracle) -> String {
@@ -344,10 +345,28 @@ impl R {
         keys.dedup();
         let distinct_keys = keys.len() == texts.len();
         let low = self.last_tick.map(|l| tick <= l).unwrap_or(false) || tick < 0;
+        let before = self.file.len();
         let res = catch(|| w.write_snap(tick, objs.iter().map(|(ob, id)| (ob, *id))));
         match res {
             Ok(Ok(())) => {
                 o.count("snap-ok");
+                // the documented mechanism, checked on the appended bytes: a full snapshot (flagged as key
+                // frame) when none was written yet or more than 250 ticks after the last one, a delta otherwise
+                let appended = self.file.bytes()[before..].to_vec();
+                let want_kf = match self.last_keyframe {
+                    None => true,
+                    Some(k) => tick as i64 - k as i64 > 250,
+                };
+                let marker = if appended[0] & 0x20 != 0 { 1 } else { 5 };
+                let flagged = appended[0] & 0x40 != 0;
+                let full = appended.get(marker).map(|b| b & 0x60 == 0x20).unwrap_or(false);
+                o.count(if full { "key-frame" } else { "delta-frame" });
+                if full != want_kf || flagged != want_kf {
+                    o.fail("C15/key-frame-rule", format!("tick {} last key frame {:?}: full snapshot {} flagged {}", tick, self.last_keyframe, full, flagged));
+                }
+                if full {
+                    self.last_keyframe = Some(tick);
+                }
                 if self.last_tick.map(|l| tick <= l).unwrap_or(false) {
                     o.fail("C15/non-increasing-tick-accepted", format!("tick {} after {:?}", tick, self.last_tick));
                 }
@@ -518,8 +537,11 @@ impl Runner for R {
                 match res {
                     Ok(Ok(w)) => {
                         self.writer = Some(w);
-                        self.args = Some(Args { net_version: nv, map_name: mn, sha, crc, server, length: len, timestamp: ts, map });
                         let b = self.file.bytes();
+                        if b != super::d_demo::doc_header(&nv, &mn, sha.as_deref(), crc, server, len, &ts, &map) {
+                            o.fail("C15/header-layout", format!("the {} bytes written by DemoWriter::new are not the documented layout of these fields", b.len()));
+                        }
+                        self.args = Some(Args { net_version: nv, map_name: mn, sha, crc, server, length: len, timestamp: ts, map });
                         format!("ok {} {}", b.len(), fnv_bytes(FNV_OFFSET, &b))
                     }
                     Ok(Err(e)) => format!("err {}", werr_name(&e)),
